@@ -490,8 +490,7 @@ def seq_model(name: str, left: Any, args: tuple) -> str | None:
     if name == "concat":
         return f"concat_f {x} {a[0]}"
     if name == "join":
-        if not all(in_str_domain(i) for i in items) or (args and not in_str_domain(args[0])) or (
-                args and isinstance(args[0], (list, tuple))):
+        if not all(in_str_domain(i) for i in items) or (args and not in_str_domain(args[0])):
             return None
         return f"join_f {x} {copt(args[0] if args else None, bool(args))}"
     if name == "slice":
@@ -566,8 +565,6 @@ def str_model(name: str, left: Any, args: tuple) -> str | None:
     if name in B64:
         return f"{B64[name]} {x}"
     if name in ("append", "prepend", "remove", "remove_first", "remove_last"):
-        if name == "append" and isinstance(args[0], (list, tuple)):
-            return None
         return f"{name}_f {x} {a[0]}"
     if name in ("replace", "replace_first"):
         return f"{name}_f {x} {a[0]} {a[1] if len(a) > 1 else 'FStr ([]:str)'}".replace(
@@ -575,8 +572,6 @@ def str_model(name: str, left: Any, args: tuple) -> str | None:
     if name == "replace_last":
         return f"replace_last_f {x} {a[0]} {a[1]}"
     if name in ("truncate", "truncatewords"):
-        if len(args) > 1 and isinstance(args[1], (list, tuple)):
-            return None
         if args and isinstance(args[0], float) and abs(args[0]) >= 2 ** 53:
             return None
         return (f"{name}_f {x} {copt(args[0] if args else None, len(args) > 0)} "
@@ -795,6 +790,18 @@ def gen_cases(g: Gen, tier: str) -> list[dict[str, Any]]:
         add("seq", "concat", left, ([9, [8]],))
         add("seq", "slice", left, (1, 2))
         add("seq", "slice", left, (-2, 5))
+
+    # Liquid string coercion of arguments; round to tens / hundreds
+    for arg in (True, False, None, 7, [1, None, "b", [True]], "", "z"):
+        add("str", "append", "x", (arg,))
+        add("str", "prepend", "x", (arg,))
+        add("seq", "join", ["a", 1, None], (arg,))
+        add("str", "truncate", "abcdefgh", (5, arg))
+        add("str", "truncatewords", "a b c", (2, arg))
+    for a_ in (15, 25, 35, -15, -25, 4, 5, 1234, 1250, 1350, -1250, 10 ** 30 + 5, 5.666, 1250.0, 149.9, 15.0, 25.0,
+               "15", "2.5e2"):
+        for n_ in (-1, -2, -3, "-1", -1.5):
+            add("num", "round", a_, (n_,))
 
     # decimal arithmetic on floats goes through their shortest repr: 0.1 + 0.2 is 0.3
     for xs in ([0.1, 0.2], [0.1, 0.2, 0.7], [1.1, 2.675, -0.3], [1e-07, 0.2, 3], ["0.1", 0.2, 1], [0.1] * 10,
@@ -1024,6 +1031,13 @@ def gen_cases(g: Gen, tier: str) -> list[dict[str, Any]]:
 # ------------------------------------------------------------------ the direct oracle (laws on the implementation)
 
 
+def leq(a: Any, b: Any) -> bool:
+    """Liquid ==: a boolean only equals a boolean; otherwise Python's ==."""
+    if isinstance(a, bool) or isinstance(b, bool):
+        return isinstance(a, bool) and isinstance(b, bool) and a == b
+    return bool(a == b)
+
+
 def ident(a: Any, b: Any) -> bool:
     """The same element: identity for hashes and arrays, type and value for scalars."""
     return a is b or (not isinstance(a, (dict, list, tuple)) and same(a, b))
@@ -1145,9 +1159,9 @@ class Laws:
             def kv(i: Any) -> Any:
                 return (i.get(kargs[0], MAX_CH + "missing") if isinstance(i, dict) else i) if kargs else i  # noqa: B023
             try:
-                nodup = all(not (kv(a) == kv(b)) for n, a in enumerate(out) for b in out[n + 1:])
-                covers = all(any(kv(o_) == kv(x) for o_ in out) for x in xs)
-                firsts = [x for n, x in enumerate(xs) if not any(kv(y) == kv(x) for y in xs[:n])]
+                nodup = all(not leq(kv(a), kv(b)) for n, a in enumerate(out) for b in out[n + 1:])
+                covers = all(any(leq(kv(o_), kv(x)) for o_ in out) for x in xs)
+                firsts = [x for n, x in enumerate(xs) if not any(leq(kv(y), kv(x)) for y in xs[:n])]
             except Exception:  # noqa: BLE001
                 continue
             self.expect("uniq-nodup", nodup, "uniq output holds two equal elements", **rp, out=out)
@@ -1218,9 +1232,9 @@ class Laws:
             c = self.f("concat", left, left)
             self.expect("concat-app", len(c) == len(xs) + len(left) and all(ident(a, b) for a, b in zip(c, xs + left)),
                         "concat is not append", **rp)
-            for st in (0, 1, -1, -len(left), len(left)):
+            for st in (0, 1, -1, -len(left), -len(left) - 1, -len(left) - 3, len(left)):
                 for ln in (0, 1, 2, len(left) + 1):
-                    exp = left[st:None if st < 0 <= st + ln else st + ln]
+                    exp = [] if st < -len(left) else left[st:None if st < 0 <= st + ln else st + ln]
                     got = self.f("slice", left, st, ln)
                     self.expect("slice-python", len(got) == len(exp) and all(ident(a, b) for a, b in zip(got, exp)),
                                 "slice differs from Python slicing", **rp, start=st, length=ln)
@@ -1288,7 +1302,7 @@ class Laws:
             out = []
             for o in objs:
                 k = key(o)
-                if not any(k is x or k == x for x in seen):
+                if not any(k is x or leq(x, k) for x in seen):
                     seen.append(k)
                     out.append(o)
             return out
@@ -1423,6 +1437,13 @@ class Laws:
                     f("remove_first", s, t) == f("replace_first", s, t, "") and
                     f("remove_last", s, t) == f("replace_last", s, t, ""), "remove x != replace x ''", **rp)
         self.expect("append-prepend", f("append", s, t) == s + t and f("prepend", s, t) == t + s, "append/prepend", **rp)
+        for arg, txt in ((True, "true"), (False, "false"), (None, ""), (7, "7"), ([1, None, "b", [True]], "1btrue")):
+            self.expect("argument-coercion-is-liquid", f("append", s, arg) == s + txt == f("prepend", arg, s) and
+                        f("prepend", s, arg) == txt + s and f("join", [s, t], arg) == s + txt + t and
+                        f("truncate", s + "xxxx", len(s) + 1 + len(txt), arg) in (s + "x" + txt, s + "xxxx") and
+                        f("truncatewords", "a b c", 2, arg) == "a b" + txt,
+                        "append / join / truncate / truncatewords coerce an argument with Python str() instead "
+                        "of Liquid's string coercion", **rp, arg=arg)
         if t:
             n = s.count(t)
             self.expect("remove-count", t not in f("remove", s, t) or True, "", **rp)
@@ -1466,6 +1487,10 @@ class Laws:
                     f("at_most", a, b) == min(a, b), "abs / at_least / at_most", **rp)
         self.expect("rounding-identity-on-ints", f("ceil", a) == a and f("floor", a) == a and f("round", a) == a and
                     f("round", a, 2) == a and type(f("round", a)) is int, "ceil/floor/round change an int", **rp)
+        for k in (1, 2, 5):
+            rk = f("round", a, -k)
+            self.expect("round-negative-digits", type(rk) is int and rk % 10 ** k == 0 and abs(rk - a) * 2 <= 10 ** k,
+                        "round: -k is not the nearest multiple of 10^k", **rp, k=k, got=rk)
         self.expect("string-operands", f("plus", str(a), str(b)) == a + b and f("minus", str(a), b) == a - b,
                     "numeric strings", **rp)
 
@@ -1492,6 +1517,8 @@ class Laws:
                 raise
             m = None                     # quotient too large for the decimal context
         if m is not None:
+            self.expect("float-modulo-no-negative-zero", math.copysign(1.0, m) > 0 or m != 0,
+                        "float modulo gives -0.0", **rp, m=m)
             self.expect("float-modulo-range", abs(m) <= abs(float(b)) and (m == 0 or (m > 0) == (db > 0)),
                         "float modulo out of range or with the sign of the dividend", **rp, m=m)
             self.expect("float-modulo-int-agree", f("modulo", int(da), 7) == f("modulo", float(int(da)), 7),
@@ -1530,6 +1557,17 @@ FIXED_WITNESSES: list[tuple[str, str, dict, str]] = [
      "a b c|a b..."),                                                                       # C19/0010
     ("truncate-exact-length-ellipsis", "{{ 'abc' | truncate: 3 }}|{{ 'hello' | truncate: 5 }}|{{ 'abcd' | truncate: 3 }}",
      {}, "abc|hello|..."),                                                                  # C19/0011
+    ("argument-python-str-coercion",
+     "{{ 'x' | append: t }}|{{ 'x' | append: n }}|{{ 'x' | append: a }}|{{ a | join: n }}|"
+     "{{ 'abcdefgh' | truncate: 5, n }}|{{ 'a b c' | truncatewords: 2, n }}", {"t": True, "n": None, "a": [1, 2]},
+     "xtrue|x|x12|12|abcde|a b"),                                                           # C19/0013
+    ("uniq-python-equality", "{{ x | uniq | join: ',' }}|{{ y | uniq | join: ',' }}",
+     {"x": [1, True, 0, False], "y": [True, 1]}, "1,true,0,false|true,1"),                  # C19/0014
+    ("slice-start-before-beginning", "{{ a | slice: -5, 2 | join: ',' }}|{{ a | slice: -10, 8 | join: ',' }}|"
+     "{{ 'abcd' | slice: -6, 3 }}|{{ a | slice: -4, 2 | join: ',' }}", {"a": [1, 2, 3, 4]}, "|||1,2"),   # C19/0015
+    ("round-negative-digits-zero", "{{ 15 | round: -1 }}|{{ 1234 | round: -2 }}|{{ 5.666 | round: -2 }}", {},
+     "20|1200|0"),                                                                          # C19/0016
+    ("float-modulo-negative-zero", "{{ -4.0 | modulo: 2 }}", {}, "0.0"),                    # C19/0017
     ("first-of-non-dict-mapping", "{{ h | first | join: ':' }}", {"h": MappingProxyType({"title": "x", "p": 1})},
      "title:x"),                                                                            # C19/0012
     # repaired in /repo by the C02 work (1faa9bc, 0b0af38, 8585e2b, e45da5e)
@@ -1585,6 +1623,14 @@ KNOWN_WITNESSES: list[tuple[str, str, dict, str, str]] = [
      {"x": [{"k": 2}, {}, {"k": 1}]}, "raises LiquidTypeError",
      "sort: 'k' fails with LiquidTypeError when the property is numeric and one hash lacks it, although items "
      "without the property are documented to go last"),
+    ("decimal-operand-treated-as-zero", "{{ d | plus: 1 }}|{{ d | times: 2 }}|{{ x | sum }}",
+     {"d": Decimal("1.5"), "x": [Decimal("1.5"), 2]}, "1|0|2",
+     "a decimal.Decimal operand of the arithmetic filters and of sum counts as 0 (num_arg / decimal_arg only "
+     "know int, float and str), silently"),
+    ("escape-once-decodes-entities", "{{ s | escape_once }}", {"s": "&nbsp;&copy; a=1&notit;=2"},
+     "\xa0\xa9 a=1\xacit;=2",
+     "escape_once is html.escape(html.unescape(s)): existing entities other than the five it writes are decoded "
+     "instead of preserved (and '&not' is read as an entity without ';')"),
     ("round-half-even-ties", "{{ 2.5 | round }}|{{ -2.5 | round }}|{{ 0.5 | round }}|{{ 1.5 | round }}|{{ 0.25 | round: 1 }}",
      {}, "2|-2|0|2|0.2",
      "round sends an exact half to the even neighbour (Python's round) where Liquid rounds half away from zero "
